@@ -37,6 +37,9 @@ Engine/BookProofs.vos Engine/BookProofs.vok Engine/BookProofs.required_vos: Engi
 Engine/Classify.vo Engine/Classify.glob Engine/Classify.v.beautified Engine/Classify.required_vo: Engine/Classify.v Engine/RepAbs.vo Engine/Magic.vo
 Engine/Classify.vio: Engine/Classify.v Engine/RepAbs.vio Engine/Magic.vio
 Engine/Classify.vos Engine/Classify.vok Engine/Classify.required_vos: Engine/Classify.v Engine/RepAbs.vos Engine/Magic.vos
+Engine/ClassifyProofs.vo Engine/ClassifyProofs.glob Engine/ClassifyProofs.v.beautified Engine/ClassifyProofs.required_vo: Engine/ClassifyProofs.v Engine/PositionRep.vo Engine/EncodingProofs.vo Engine/RepProofs.vo Engine/RepRoundTrip.vo Engine/RepRoundTripNormal.vo Engine/RepAbs.vo Engine/RepRefine.vo Engine/RepRefineLegal.vo Engine/Classify.vo
+Engine/ClassifyProofs.vio: Engine/ClassifyProofs.v Engine/PositionRep.vio Engine/EncodingProofs.vio Engine/RepProofs.vio Engine/RepRoundTrip.vio Engine/RepRoundTripNormal.vio Engine/RepAbs.vio Engine/RepRefine.vio Engine/RepRefineLegal.vio Engine/Classify.vio
+Engine/ClassifyProofs.vos Engine/ClassifyProofs.vok Engine/ClassifyProofs.required_vos: Engine/ClassifyProofs.v Engine/PositionRep.vos Engine/EncodingProofs.vos Engine/RepProofs.vos Engine/RepRoundTrip.vos Engine/RepRoundTripNormal.vos Engine/RepAbs.vos Engine/RepRefine.vos Engine/RepRefineLegal.vos Engine/Classify.vos
 Engine/Encoding.vo Engine/Encoding.glob Engine/Encoding.v.beautified Engine/Encoding.required_vo: Engine/Encoding.v Base/Bits.vo
 Engine/Encoding.vio: Engine/Encoding.v Base/Bits.vio
 Engine/Encoding.vos Engine/Encoding.vok Engine/Encoding.required_vos: Engine/Encoding.v Base/Bits.vos
@@ -274,9 +277,9 @@ Props/Properties_C13.vos Props/Properties_C13.vok Props/Properties_C13.required_
 Props/Properties_C14.vo Props/Properties_C14.glob Props/Properties_C14.v.beautified Props/Properties_C14.required_vo: Props/Properties_C14.v Chess/Rules.vo Gen/Consts.vo Engine/EvalCache.vo Engine/EvalCacheProofs.vo Engine/EndgameModel.vo Engine/EndgameProofs.vo
 Props/Properties_C14.vio: Props/Properties_C14.v Chess/Rules.vio Gen/Consts.vio Engine/EvalCache.vio Engine/EvalCacheProofs.vio Engine/EndgameModel.vio Engine/EndgameProofs.vio
 Props/Properties_C14.vos Props/Properties_C14.vok Props/Properties_C14.required_vos: Props/Properties_C14.v Chess/Rules.vos Gen/Consts.vos Engine/EvalCache.vos Engine/EvalCacheProofs.vos Engine/EndgameModel.vos Engine/EndgameProofs.vos
-Props/Properties_C15.vo Props/Properties_C15.glob Props/Properties_C15.v.beautified Props/Properties_C15.required_vo: Props/Properties_C15.v Chess/Rules.vo Engine/Classify.vo
-Props/Properties_C15.vio: Props/Properties_C15.v Chess/Rules.vio Engine/Classify.vio
-Props/Properties_C15.vos Props/Properties_C15.vok Props/Properties_C15.required_vos: Props/Properties_C15.v Chess/Rules.vos Engine/Classify.vos
+Props/Properties_C15.vo Props/Properties_C15.glob Props/Properties_C15.v.beautified Props/Properties_C15.required_vo: Props/Properties_C15.v Chess/Rules.vo Engine/Classify.vo Engine/RepAbs.vo Engine/RepRefineLegal.vo Engine/ClassifyProofs.vo
+Props/Properties_C15.vio: Props/Properties_C15.v Chess/Rules.vio Engine/Classify.vio Engine/RepAbs.vio Engine/RepRefineLegal.vio Engine/ClassifyProofs.vio
+Props/Properties_C15.vos Props/Properties_C15.vok Props/Properties_C15.required_vos: Props/Properties_C15.v Chess/Rules.vos Engine/Classify.vos Engine/RepAbs.vos Engine/RepRefineLegal.vos Engine/ClassifyProofs.vos
 Props/Properties_C16.vo Props/Properties_C16.glob Props/Properties_C16.v.beautified Props/Properties_C16.required_vo: Props/Properties_C16.v Engine/Encoding.vo Engine/EncodingProofs.vo Chess/Rules.vo Chess/Fen.vo Chess/TextProofs.vo
 Props/Properties_C16.vio: Props/Properties_C16.v Engine/Encoding.vio Engine/EncodingProofs.vio Chess/Rules.vio Chess/Fen.vio Chess/TextProofs.vio
 Props/Properties_C16.vos Props/Properties_C16.vok Props/Properties_C16.required_vos: Props/Properties_C16.v Engine/Encoding.vos Engine/EncodingProofs.vos Chess/Rules.vos Chess/Fen.vos Chess/TextProofs.vos
